@@ -393,6 +393,8 @@ class FileResponse(Response, FileResponseMixin):
 
         stat_result = self.stat_result
         file_size = stat_result.st_size
+        # a response object may serve several requests: forget the last one
+        self.headers.pop("content-range", None)
 
         if "HTTP_RANGE" not in environ or (
             "HTTP_IF_RANGE" in environ
